@@ -219,6 +219,12 @@ def replay_file(path):
         print("no concrete input recorded (no-failing-input-found); verifier output follows")
         print(doc.get("verifier_output", ""))
         return 1
+    if doc["unit"].startswith("crate:"):
+        print("crate-level sweep witness (bounded check %s): clause %s" % (doc["unit"], wit.get("clause")))
+        print("input:    %s" % wit.get("input"))
+        print("observed: %s" % wit.get("observed"))
+        print("re-run the sweep on the current tree with: /verif/bin/check %s --tier thorough" % doc.get("property"))
+        return 1
     if doc["unit"].startswith("kani:"):
         print("Kani concrete values: %s" % wit)
         return 1
